@@ -14,7 +14,7 @@ every set, and the partially used last RPSI byte (both need inductive loop invar
 templates; see DESIGN.md §5)."""
 from .. import solver
 from ..analysis import Disc, Explorer, IterProtocol, PARSER_TRAIT, FCI_PARSER, FCI_BUILDER, PARSED, ERROR_OF, opaque_parse_hook
-from ..interp import Interp, State
+from ..interp import Interp, State, Unmodelled
 from ..lin import Lin, atoms_deep, eq, f_and, f_not, f_or, flit, ge, gt, le, lin, lt, ne, show_formula, show_pc
 from ..roundtrip import Trip, acceptance, elements
 from ..spec import FCI, FIR_ENTRY, NACK_WINDOW, SLI_FIELDS
@@ -344,5 +344,89 @@ def nack_encoder(F, D, res):
                         res.compare(bool(good), "nack-transition", nxt[0],
                                     "NACK encoder: no base is left only when every requested number has been consumed", detail=f"position {pos}", pc=s2.pc)
                 res.floor("NACK encoder post-states checked", n_post, 2)
+        n_small = nack_small_sets(F, D, res, adt, ent, nxt[0])
+        res.floor("NACK encoder: one- and two-element request sets executed exactly", n_small, 18)
         res.floor("NACK encoder bit-setting steps found", steps, 1)
         res.floor("NACK encoder flush paths found", flush, 1)
+
+
+def nack_small_sets(F, D, res, adt, ent, nd):
+    """the start and the end of the run-length encoding, which the per-step relation does not pin down: with exactly one
+    requested number e0 the generator yields the word (e0, 0) and then ends; with two numbers e0, e1 = e0 + d it yields
+    (e0, 1 << (d-1)) for each d in 1..=16 and (e0, 0), (e1, 0) beyond.  The traversals are short, so they are executed
+    exactly on symbolic element values (no unrolling of an unbounded loop is involved)."""
+    n = 0
+
+    def words(I, s0, key, limit):
+        """all complete runs of next() until None: list of (state, [word values])"""
+        runs = [(s0, [])]
+        done = []
+        for _ in range(limit + 1):
+            nxt_ = []
+            for s, ws in runs:
+                for s2, k2, r in I.inline(nd, None, s, [RefV(key)]):
+                    if k2 != "val" or not isinstance(r, StructV):
+                        done.append((s2, None))
+                    elif r.variant == "None":
+                        done.append((s2, ws))
+                    else:
+                        nxt_.append((s2, ws + [r.fields.get("0")]))
+            runs = nxt_
+            if not runs:
+                break
+        for s, ws in runs:
+            done.append((s, None))      # did not end within the limit
+        return done
+
+    def word_is(pc, w, pid, blp):
+        items = w.items if isinstance(w, (ArrV, TupV)) else None
+        if not items or len(items) != 4 or not all(isinstance(x, IntV) for x in items):
+            return False
+        return solver.entails(pc, f_and(flit(eq(items[0].l.scale(256) + items[1].l, pid)), flit(eq(items[2].l.scale(256) + items[3].l, blp))))
+
+    for count, cases in ((1, [None]), (2, list(range(1, NACK_WINDOW + 1)) + ["far"])):
+        for case in cases:
+            I = Interp(F)
+            recv = I.symbolic(D.ty_index_of_adt(adt), ("b",))
+            colls = [x for x in recv.fields.values() if isinstance(x, CollV)]
+            if len(colls) != 1:
+                res.compare(False, "nack-small-sets", ent, "the NACK builder keeps one collection of requested numbers")
+                return n
+            coll = colls[0]
+            e0, e1 = I.seq_elem(coll, lin(0)), I.seq_elem(coll, lin(1))
+            st = State()
+            st.pc.append(eq(coll.count(), count))
+            label = "one requested number"
+            if count == 2:
+                if case == "far":
+                    st.pc.append(gt(e1.l - e0.l, NACK_WINDOW))
+                    label = "two requested numbers more than 16 apart"
+                else:
+                    st.pc.append(eq(e1.l, e0.l + case))
+                    label = f"two requested numbers {case} apart"
+            try:
+                for s, k, it in I.inline(ent, None, st, [recv]):
+                    if isinstance(it, IterV) and it.seq[0] == "custom":
+                        it = it.seq[1]
+                    if not isinstance(it, StructV):
+                        continue
+                    s0 = s.clone()
+                    s0.frame = next(I.frames)
+                    key = (s0.frame, "iter-self")
+                    s0.env[key] = it
+                    for s2, ws in words(I, s0, key, 3):
+                        n += 1
+                        if ws is None:
+                            good = False
+                        elif count == 1:
+                            good = len(ws) == 1 and word_is(s2.pc, ws[0], e0.l, lin(0))
+                        elif case == "far":
+                            good = len(ws) == 2 and word_is(s2.pc, ws[0], e0.l, lin(0)) and word_is(s2.pc, ws[1], e1.l, lin(0))
+                        else:
+                            good = len(ws) == 1 and word_is(s2.pc, ws[0], e0.l, lin(1 << (case - 1)))
+                        res.compare(bool(good), "nack-small-sets", nd,
+                                    f"NACK encoder, {label}: the words are exactly the RFC 4585 encoding (PID = first number, BLP bit d-1 for a number d later, a new word beyond 16), then the generator ends",
+                                    detail=repr(ws)[:240], pc=s2.pc)
+            except Unmodelled as ex:
+                res.unmodelled(nd, f"exact run on a {count}-element request set: {ex}")
+    return n
